@@ -280,3 +280,149 @@ func firstDiff(got, want []string) string {
 	}
 	return "none"
 }
+
+// C06 part (g): a foreign key index whose target is a child store - the back-reference list lives below the child
+// store's part of the target entity. Deleting (or re-pointing) a referrer takes its id out of that list; a deleted
+// referrer's id is nowhere in the file.
+const c06ChildTargetCases = 6
+
+func c06ChildTarget(c *core.Ctx, idx int) {
+	r := c.Rand()
+	people := &schema.StoreDef{Type: "people", BasePath: []string{"stores"}, Fields: []schema.Field{{Name: "label", Kind: schema.KStr}}}
+	childPath := [][]string{{"lead"}, {"roles", "lead"}}[idx%2]
+	leads := &schema.StoreDef{Type: "people", Parent: "people", ChildPath: childPath,
+		Fields: []schema.Field{{Name: "rank", Kind: schema.KStr}, {Name: "tasks", Kind: schema.KList, FK: "tasks", Derived: true}}}
+	leadKey := "people/" + strings.Join(childPath, "/")
+	fkKind := []schema.FKKind{schema.FkIndexNullable, schema.FkIndex, schema.FkIndexCascade}[idx%3]
+	tasks := &schema.StoreDef{Type: "tasks", BasePath: []string{"stores"},
+		// levels: a set of integers with a set index (the strategy writes the list bucket itself)
+		Fields: []schema.Field{{Name: "lead", Kind: schema.KStr, FK: leadKey}, {Name: "levels", Kind: schema.KI64Set}},
+		SetIdx: []string{"levels"},
+		FKs:    []schema.FKDef{{Field: "lead", Target: leadKey, Kind: fkKind, BackRef: "tasks"}}}
+	sc := schema.Build([]*schema.StoreDef{people, leads, tasks})
+	path := c.TempFile("c06t")
+	db, err := sc.OpenDb(path)
+	if err != nil {
+		c.Violation("C06 setup", err.Error(), nil)
+		return
+	}
+	defer func() { _ = db.Close(); _ = os.Remove(path) }()
+	pst, lst, tst := sc.St("people"), sc.St(leadKey), sc.St("tasks")
+	info := map[string]any{"child_path": childPath, "fk_kind": []string{"nullable fk index", "fk index", "cascade-delete fk index"}[idx%3]}
+	if err := db.Update(nil, func(ctx boltz.MutateContext) error {
+		for _, id := range []string{"lead-1", "lead-2"} {
+			if err := lst.Store.Create(ctx, &schema.Ent{Id: id, Typ: "people", HasChild: true, V: map[string]any{"label": "l", "rank": "r"}}); err != nil {
+				return err
+			}
+		}
+		return pst.Store.Create(ctx, &schema.Ent{Id: "plain-1", Typ: "people", V: map[string]any{"label": "p"}})
+	}); err != nil {
+		c.Violationf("C06 fk index into a child store: setup failed", info, "%v", err)
+		return
+	}
+	refs := map[string]string{} // task -> lead
+	var gone []string
+	verify := func(step string) {
+		_ = db.View(func(tx *bbolt.Tx) error {
+			d := dump.Tx(tx)
+			for _, id := range gone {
+				c.Eval()
+				if hits := d.FindId(id); len(hits) > 0 {
+					c.Violationf("C06 fk index into a child store: a deleted id is still in the file after "+step+": "+traceClass(hits[0]), info, "id %q: %v", id, hits[:min(3, len(hits))])
+				}
+			}
+			// the set index over the integer set: every living task is listed under 7, nobody else is
+			var under7, wantTasks []string
+			key7 := make([]byte, 8)
+			key7[0] = 7
+			tst.SetIdx["levels"].Read(tx, key7, func(v []byte) { under7 = append(under7, string(v)) })
+			for t := range refs {
+				wantTasks = append(wantTasks, t)
+			}
+			sort.Strings(under7)
+			sort.Strings(wantTasks)
+			if fmt.Sprint(under7) != fmt.Sprint(wantTasks) {
+				c.Violationf("C06 set index over an integer set differs from the entities after "+step, info, "level 7 lists %q, tasks %q", under7, wantTasks)
+			}
+			for _, lead := range []string{"lead-1", "lead-2"} {
+				if !lst.Store.IsEntityPresent(tx, lead) {
+					continue
+				}
+				var want []string
+				for t, l := range refs {
+					if l == lead {
+						want = append(want, t)
+					}
+				}
+				sort.Strings(want)
+				got := lst.Store.GetRelatedEntitiesIdList(tx, lead, "tasks")
+				sort.Strings(got)
+				if fmt.Sprint(got) != fmt.Sprint(want) {
+					c.Violationf("C06 fk index into a child store: back-reference list differs from the committed references after "+step, info, "%s lists %q, expected %q", lead, got, want)
+				}
+			}
+			return nil
+		})
+		c.Count("child_store_target_steps", 1)
+	}
+	for step := 0; step < 30; step++ {
+		id := fmt.Sprintf("task-%d", r.Intn(5))
+		lead := core.Pick(r, []string{"lead-1", "lead-2", "lead-1"})
+		_, exists := refs[id]
+		op := core.Pick(r, []string{"create", "create", "repoint", "delete", "delete", "create-to-plain"})
+		var opErr error
+		wantOk := true
+		switch op {
+		case "create":
+			if exists {
+				continue
+			}
+			opErr = db.Update(nil, func(ctx boltz.MutateContext) error {
+				return tst.Store.Create(ctx, &schema.Ent{Id: id, Typ: "tasks", V: map[string]any{"lead": lead, "levels": []int64{7, int64(step % 3), -1}}})
+			})
+			if opErr == nil {
+				refs[id] = lead
+				for i, g := range gone {
+					if g == id {
+						gone = append(gone[:i], gone[i+1:]...)
+						break
+					}
+				}
+			}
+		case "create-to-plain":
+			// an entity of the parent store without data in the child store is no target
+			if exists {
+				continue
+			}
+			wantOk = false
+			opErr = db.Update(nil, func(ctx boltz.MutateContext) error {
+				return tst.Store.Create(ctx, &schema.Ent{Id: id, Typ: "tasks", V: map[string]any{"lead": "plain-1"}})
+			})
+		case "repoint":
+			if !exists {
+				continue
+			}
+			opErr = db.Update(nil, func(ctx boltz.MutateContext) error {
+				return tst.Store.Update(ctx, &schema.Ent{Id: id, Typ: "tasks", V: map[string]any{"lead": lead, "levels": []int64{7, int64(step%3) + 10}}}, nil)
+			})
+			if opErr == nil {
+				refs[id] = lead
+			}
+		case "delete":
+			if !exists {
+				continue
+			}
+			opErr = db.Update(nil, func(ctx boltz.MutateContext) error { return tst.Store.DeleteById(ctx, id) })
+			if opErr == nil {
+				delete(refs, id)
+				gone = append(gone, id)
+			}
+		}
+		c.Eval()
+		c.Nontrivial("c06childtarget", op, idx%6, len(refs))
+		if (opErr == nil) != wantOk {
+			c.Violationf("C06 fk index into a child store: "+op+" expected accepted="+fmt.Sprint(wantOk), info, "task %s -> %s: %v", id, lead, opErr)
+		}
+		verify(op)
+	}
+}
